@@ -145,6 +145,15 @@ def _apply_rules(ed: _Edit, toks, lo, hi, repo, opts, rules, dropped, file):
         # attributes
         if t.kind == 'punct' and t.text == '#':
             nk = ci[p + 1] if p + 1 < len(ci) else None
+            if nk is not None and toks[nk].kind == 'punct' and toks[nk].text == '!' and p + 2 < len(ci) and toks[ci[p + 2]].text == '[':
+                # inner attribute `#![allow(..)]` inside a function body: lint configuration only
+                c2 = rs.match_close(toks, ci[p + 2])
+                inner2 = ''.join(x.text for x in toks[ci[p + 2] + 1:c2]).strip()
+                if inner2.startswith('allow') or inner2.startswith('warn') or inner2.startswith('deny'):
+                    ed.blank(k, c2)
+                    bump('X3-attr')
+                    p = pos[c2] + 1
+                    continue
             if nk is not None and toks[nk].kind == 'open' and toks[nk].text == '[':
                 c = rs.match_close(toks, nk)
                 inner = ''.join(x.text for x in toks[nk + 1:c]).strip()
